@@ -49,9 +49,9 @@ def setup_worker() -> None:
     import zorg.service.note_utils as nu
     from zorg.storage.file import FileManager
 
-    harness.COUNTERS.watch("add_note", FileManager.add_note)
-    harness.COUNTERS.watch("delete_note", FileManager.delete_note)
-    harness.COUNTERS.watch("_add_hidden_metadata", nu._add_hidden_metadata)
+    harness.COUNTERS.watch_attr(FileManager, "add_note")
+    harness.COUNTERS.watch_attr(FileManager, "delete_note")
+    harness.COUNTERS.watch_attr(nu, "_add_hidden_metadata")
     TRACER.install()
 
 
@@ -221,11 +221,8 @@ def run_dir(acc: Acc, seed: int, idx: int, nmoves: int, only=None) -> None:
                 head.pop()
             while tail and tail[0].strip() == "":
                 tail.pop(0)
-            same = False
-            for m in range(0, 6):
-                if head + [""] * m + tail == dl_before:
-                    same = True
-                    break
+            m = len(dl_before) - len(head) - len(tail)
+            same = m >= 0 and head + [""] * m + tail == dl_before
             if not same:
                 lost = [l for l in dl_before if l not in rest][:2]
                 acc.violation(f"destination {dest}: other lines changed by the insertion (e.g. lost/changed {lost})", case, cls="destination: other lines changed")
